@@ -6,7 +6,7 @@ PROP = dict(
     # the model IS the specification for these ops: the TL rules applied to the schema text carried in the line
     info_ops=("tl.crcid",),  # id spelled in the schema vs CRC-32 of the declaration text: outside C10 (the property speaks of the id given in the schema line); reported in the evidence only
     spec_ops=("tl.enc", "tl.dec", "tl.fenc", "tl.fdec", "tl.req", "tl.ans", "tl.reqdec", "tl.schema",
-              "tl.hw."),
+              "tl.hw.", "tl.wait."),
     rule="for every declaration of lite_api.tl (45 types: single-constructor types through their bare constructor, "
          "multi-constructor types and the hand-written liteServer.SignatureSet boxed; 29 functions: parameter struct, "
          "client method against a stub connection, answers, request decoder): schema-directed random values with all "
